@@ -44,10 +44,64 @@ def run(tier="quick"):
                          ]))
 
 
+GRID = ["0.0", "-0.0", "1.0", "-1.0", "0.5", "2.0", "3.0", "0.1", "0.30000000000000004", "1000000000000000.0", "9007199254740993.0"]
+
+
 def replay(ob):
-    if "DivFloat" in ob.id:
-        prog = ("fn d(a: float, b: float) = a / b\nlet z = 0.0\nprintln(1.0 / 0.0)\n")
+    """Kani's counterexamples are bit patterns that mostly cannot be written as Abra literals (no
+    exponent syntax, NaN, infinities).  The replay therefore runs every float operator on a grid of
+    literal-expressible values on the real CLI twice — right operand as a LITERAL (immediate opcode)
+    and as a VARIABLE (register opcode) — and, for both, against IEEE arithmetic computed in Python
+    with the comparison semantics the property states (one total order: -0.0 < 0.0)."""
+    import math
+    import struct
+
+    def key(x):  # total order key: sign-magnitude bits
+        b = struct.unpack('<q', struct.pack('<d', x))[0]
+        return b if b >= 0 else -(b & 0x7fffffffffffffff) - 1
+
+    ops = ["==", "!=", "<", "<=", ">", ">=", "+", "-", "*", "/"]
+    lines = ["fn v(a: float, b: float, op: int) {",
+             "  if op == 0 { println(a == b) }", "  if op == 1 { println(a != b) }", "  if op == 2 { println(a < b) }",
+             "  if op == 3 { println(a <= b) }", "  if op == 4 { println(a > b) }", "  if op == 5 { println(a >= b) }",
+             "  if op == 6 { println(a + b) }", "  if op == 7 { println(a - b) }", "  if op == 8 { println(a * b) }",
+             "  if op == 9 { println(a / b) }", "}"]
+    cases = []
+    for a in GRID:
+        for b in GRID:
+            for k, op in enumerate(ops):
+                if op == "/" and float(b) == 0.0:
+                    continue
+                lines.append("let a_%d = %s" % (len(cases), a))
+                lines.append("println(a_%d %s %s)" % (len(cases), op, b))     # literal right operand
+                lines.append("v(%s, %s, %d)" % (a, b, k))                      # variable operands
+                fa, fb = float(a), float(b)
+                if k < 6:
+                    ka, kb = key(fa), key(fb)
+                    want = [ka == kb, ka != kb, ka < kb, ka <= kb, ka > kb, ka >= kb][k]
+                    want = str(want).lower()
+                else:
+                    want = (fa + fb) if k == 6 else (fa - fb) if k == 7 else (fa * fb) if k == 8 else (fa / fb)
+                cases.append((a, op, b, want))
+    out, err, rc = abra_cli.run_program("\n".join(lines) + "\n", timeout=300)
+    got = out.strip().split("\n")
+    for i, (a, op, b, want) in enumerate(cases):
+        for j, form in ((2 * i, "literal"), (2 * i + 1, "variable")):
+            g = got[j] if j < len(got) else "<missing: %s>" % err.strip().split("\n")[0][:150]
+            if isinstance(want, str):
+                ok = (g == want)
+            else:
+                try:
+                    ok = (float(g) == want and math.copysign(1, float(g)) == math.copysign(1, want))
+                except ValueError:
+                    ok = False
+            if not ok:
+                ob.cex = dict(a=a, op=op, b=b, operand_form=form)
+                return True, dict(expression="%s %s %s" % (a, op, b), operand_form=form, real_output=g, expected=str(want))
+    # division by zero: literal and variable divisor must both stop with the error
+    for prog, form in (("let a = 1.0\nprintln(a / 0.0)\n", "literal"), ("fn d(a: float, b: float) = a / b\nprintln(d(1.0, 0.0))\n", "variable"),
+                       ("let a = 1.0\nprintln(a / -0.0)\n", "literal -0.0")):
         out, err, rc = abra_cli.run_program(prog)
-        bad = "division by zero" not in (out + err)
-        return (True if bad else None), dict(program=prog, real_output=(out + err)[:500], expected="division by zero runtime error for a literal zero divisor, as for a variable one")
-    return None, dict(note="no canned replay")
+        if "division by zero" not in (out + err):
+            return True, dict(program=prog, operand_form=form, real_output=(out + err)[:300], expected="division by zero runtime error")
+    return None, dict(note="no disagreement on %d operator instances x 2 operand forms on the real CLI" % len(cases))
